@@ -123,7 +123,7 @@ export class CompilePool {
   }
 }
 
-export const DEFAULT_SETTINGS = { string_formats: ["f1", "f2", "f3"], number_formats: ["n1", "n2", "n3"] };
+export const DEFAULT_SETTINGS = { string_formats: ["f1", "f2", "f3", "id"], number_formats: ["n1", "n2", "n3", "id"] };
 
 // Summarise a single-bundle response: {kind:"code",code} | {kind:"diag",diagnostics} | {kind:"panic"} | {kind:"dead"} | {kind:"empty"}
 export function classify(resp) {
